@@ -51,6 +51,10 @@ ASSUMPTIONS = [
     'write requests without any data element, successful Get Attribute replies without data, known CPF item types with empty '
     'payload, signalling REAL NaNs (the C float<->double conversion quiets them)',
     'parse direction not asserted for the documented Unconnected Send / Read Tag Fragmented collisions (counted per case)',
+    'IFACEADDRS (TCP/IP Interface Object attribute 5): each address is the UDINT a<<24|b<<16|c<<8|d of "a.b.c.d", little-endian '
+    'like every CIP UDINT (what the code does; the class docstring\'s "network byte-ordered" example contradicts itself)',
+    'known findings (known_findings.json) are still exercised at their own level, but the construct is not embedded in larger '
+    'messages (rejected draws are counted) so that the search continues behind them',
 ]
 MIN_EVALUATIONS = {'quick': 15000, 'thorough': 300000}
 
@@ -75,7 +79,7 @@ def set_avoid():
     gen.AVOID.update(SIG_CLASS[s] for s in known if s in SIG_CLASS)
 
 
-def classify(case, fails, ctx):
+def classify(case):
     feats = gen.features(case)
     classes = ['kind:' + case['kind']] + sorted(feats)
     nontrivial = bool(feats & gen.NONTRIVIAL)
@@ -88,7 +92,7 @@ def pred(case, stats):
     if kind == 'fo_ambiguous':
         return pred_ambiguous(case, stats)
     fails = chk.check_node(kind, case['p'], case.get('opts') or {}, ctx)
-    nontrivial, classes = classify(case, fails, ctx)
+    nontrivial, classes = classify(case)
     if ctx.excluded:
         classes.append('partly-excluded')
     stats.case(case, nontrivial=nontrivial, classes=classes)
